@@ -174,14 +174,14 @@ func (e *searcherEnv) runProgram(q *Q, prog []c08Call) (msg string, skipped bool
 func TestC08Searchers(t *testing.T) {
 	ev := Ev("C08")
 	ev.SetRule("rapid: corpus from a generated history (1-4+ segments with tombstones on scorch mem/disk zap v11-17, or upsidedown gtreap/boltdb); query tree from the full family built with query.Searcher exactly as SearchInContext does, under drawn searcher options (score none => unadorned optimisations, term vectors, explain) and DisjunctionHeapTakeover in {2,10}; " +
-		"a program of 1-25 Next/Advance(t) calls with forward targets t > last returned id drawn from every doc number incl. segment starts, tombstones, last+1, last+1000 (scorch) or every id and in-between strings (upsidedown); " +
+		"a program of 1-25 Next/Advance(t) calls with forward targets t > last returned id drawn from the hits of the query, the hits of its sub-clauses (where clause cursors rest), and every doc number incl. segment starts, tombstones, last+1, last+1000 (scorch) or every id and in-between strings (upsidedown); " +
 		"oracle: the Next-only enumeration E of a fresh identical searcher is strictly increasing, and the program must behave as the simulation on E (Next=successor, Advance(t)=first e>=t, nil after the end, nil stays nil); " +
 		"non-trivial = compound searcher, >=1 Advance that skips >=1 match, and >=2 matches in E")
 	ev.Assume("targets are forward only (the contract); internal ids are compared bytewise; E comes from the same implementation (its truth is C02's subject)")
 	checkPropN(t, "C08", 500, func(t *rapid.T) {
 		oldTakeover := setHeapTakeover(rapid.SampledFrom([]int{2, 10}).Draw(t, "heapTakeover"))
 		defer setHeapTakeover(oldTakeover)
-		c := BuildCorpus(t, CorpusOpts{MaxSteps: 10})
+		c := BuildCorpus(t, CorpusOpts{MaxSteps: 10}.GenBig(t))
 		adv, err := c.Idx.Advanced()
 		if err != nil {
 			t.Fatalf("Advanced: %v", err)
@@ -204,7 +204,12 @@ func TestC08Searchers(t *testing.T) {
 		// leaf kinds that usually match several documents are over-weighted so that programs have matches to skip
 		g := QGen{LeafKinds: append(append([]string{}, allLeafKinds...), "all", "prefix", "prefix", "term", "wildcard", "match", "termrange")}
 		for qi := 0; qi < 3; qi++ {
-			q := g.Tree(t, fmt.Sprintf("q%d", qi), 3)
+			var q *Q
+			if rapid.IntRange(0, 2).Draw(t, "frequentCompound") == 0 {
+				q = g.FrequentCompound(t, fmt.Sprintf("fq%d", qi))
+			} else {
+				q = g.Tree(t, fmt.Sprintf("q%d", qi), 3)
+			}
 			if v, ok := q.Bleve().(interface{ Validate() error }); ok && v.Validate() != nil {
 				continue
 			}
@@ -213,6 +218,35 @@ func TestC08Searchers(t *testing.T) {
 			if msg != "" {
 				t.Fatalf("query %s on %s (%+v) docs %v: %s", q, c.Cfg, env.opts, c.Model.Docs, msg)
 			}
+			// the hits of the query's sub-clauses: the positions at which clause cursors rest
+			var subHits [][]byte
+			q.Walk(func(x *Q) {
+				if x == q || len(subHits) > 200 {
+					return
+				}
+				if v, ok := x.Bleve().(interface{ Validate() error }); ok && v.Validate() != nil {
+					return
+				}
+				if sub, m := env.enumerate(x); m == "" {
+					subHits = append(subHits, sub...)
+				}
+			})
+			// ... preferring those that are not hits of the whole query: a clause cursor rests
+			// there while the answer lies elsewhere
+			inE := map[string]bool{}
+			for _, e := range E {
+				inE[string(e)] = true
+			}
+			var subOnly [][]byte
+			for _, h := range subHits {
+				if !inE[string(h)] {
+					subOnly = append(subOnly, h)
+				}
+			}
+			if len(subOnly) > 0 {
+				subHits = subOnly
+			}
+			sort.Slice(subHits, func(i, j int) bool { return bytes.Compare(subHits[i], subHits[j]) < 0 })
 			anySkipped := false
 			var prog []c08Call
 			for pi := 0; pi < 3; pi++ {
@@ -228,8 +262,19 @@ func TestC08Searchers(t *testing.T) {
 							lo = sort.Search(len(targets), func(i int) bool { return bytes.Compare(targets[i], floor) > 0 })
 						}
 						var tgt []byte
+						slo := 0
+						if floor != nil {
+							slo = sort.Search(len(subHits), func(i int) bool { return bytes.Compare(subHits[i], floor) > 0 })
+						}
 						if pos < len(E) && rapid.Bool().Draw(t, "tgtMatch") {
 							tgt = E[rapid.IntRange(pos, len(E)-1).Draw(t, "tgtE")]
+						} else if slo < len(subHits) && rapid.Bool().Draw(t, "tgtSub") {
+							// a hit of some sub-clause (for instance of a must-not clause), preferably a near one
+							hi := len(subHits) - 1
+							if hi > slo+3 && rapid.Bool().Draw(t, "tgtSubNear") {
+								hi = slo + 3
+							}
+							tgt = subHits[rapid.IntRange(slo, hi).Draw(t, "tgtS")]
 						} else if lo < len(targets) {
 							tgt = targets[rapid.IntRange(lo, len(targets)-1).Draw(t, "tgt")]
 						} else {
